@@ -3,7 +3,8 @@
 (* Delay / repeat / reverse: elapsed time -> phase and normalised position. *)
 (* Times are integer ticks.  A timing is a record                           *)
 (*   [cyc |-> C >= 1, del |-> D >= 0, rep |-> r, rev |-> BOOLEAN]            *)
-(* with r = -1 (Repeat::None), n >= 0 (Repeat::Times(n)), -2 (Infinite).    *)
+(* with r = -1 (Repeat::None), n >= 0 (Repeat::Times(n)), -2 (Infinite),    *)
+(* -3 (Times(u32::MAX): finite, but never over inside any modelled horizon) *)
 (* A phase is [k |-> "pre"|"act"|"end", pn, pd, rp, rv]: position pn/pd,    *)
 (* rp = "is_repeating", rv = "is_reversing" (FALSE outside "act").          *)
 (*                                                                          *)
@@ -15,6 +16,7 @@
 EXTENDS Integers
 
 INF == 1000000000   \* stands for an infinite total duration
+HUGE == 999999999   \* stands for the (finite) total of a timeline repeating u32::MAX times (rep = -3)
 
 \* f32 rounding of a non-negative integer number of ticks (< 2^30): round-to-nearest-even to 24
 \* significant bits.  Ticks are a power of two seconds, so this is exactly what converting the
@@ -27,8 +29,9 @@ F32Round(v) == IF v < 16777216 THEN v
                     ELSE IF 2 * r < m THEN b
                     ELSE IF ((b \div m) % 2) = 0 THEN b ELSE b + m
 
+Unbounded(tm) == tm.rep = -2 \/ tm.rep = -3      \* never over inside any modelled horizon
 Cycles(tm) == IF tm.rep = -1 THEN 1 ELSE tm.rep + 1          \* repeats + 1 (finite)
-Total(tm)  == IF tm.rep = -2 THEN INF ELSE tm.del + tm.cyc * Cycles(tm)
+Total(tm)  == IF tm.rep = -2 THEN INF ELSE IF tm.rep = -3 THEN HUGE ELSE tm.del + tm.cyc * Cycles(tm)
 
 \* --- implementation-shaped (time_scale.rs get_position) -------------------
 PhaseImpl(tm, t) ==
@@ -59,7 +62,7 @@ UseOverride(ph) == IF ph.k = "pre" THEN TRUE ELSE IF ph.k = "end" THEN FALSE ELS
 PosDesign(tm, t) ==
   LET x == t - tm.del  C == tm.cyc IN
   IF x < 0 THEN <<0, 1>>
-  ELSE IF tm.rep # -2 /\ x > C * Cycles(tm) THEN (IF tm.rev THEN <<0, 1>> ELSE <<1, 1>>)
+  ELSE IF ~Unbounded(tm) /\ x > C * Cycles(tm) THEN (IF tm.rev THEN <<0, 1>> ELSE <<1, 1>>)
   ELSE LET r == x % C
            \* time within the cycle, the end of a cycle counting as its 100% instant
            c == IF r = 0 /\ x > 0 THEN C ELSE r
